@@ -135,8 +135,8 @@ func (a *agentProc) saslAuth(user, pw string) string {
 		}
 		defer conn.Close() //nolint:errcheck
 		raw := ref.EncodeParts([]byte(user), []byte(pw), []byte("svc"), nil)
-		conn.Write(raw)                          //nolint:errcheck
-		conn.(*net.UnixConn).CloseWrite()        //nolint:errcheck
+		conn.Write(raw)                                        //nolint:errcheck
+		conn.(*net.UnixConn).CloseWrite()                      //nolint:errcheck
 		conn.SetReadDeadline(time.Now().Add(20 * time.Second)) //nolint:errcheck
 		reply, _ := io.ReadAll(conn)
 		if len(reply) >= 4 && string(reply[2:4]) == "OK" {
@@ -166,7 +166,7 @@ func (a *agentProc) basicAuth(user, pw string) string {
 	if err != nil {
 		return "error:" + err.Error()
 	}
-	defer resp.Body.Close() //nolint:errcheck
+	defer resp.Body.Close()        //nolint:errcheck
 	io.Copy(io.Discard, resp.Body) //nolint:errcheck
 	switch resp.StatusCode {
 	case 200:
@@ -507,9 +507,9 @@ func c04Advance(R *vr.Result, rng *rand.Rand, agent *agentProc, d *store.Dir, us
 func c04InternalErrors(R *vr.Result, agent *agentProc, d *store.Dir, base string, sets []ref.ParamSet) {
 	// a record naming an unknown parameter set, a directory in place of the file, an unreadable-as-record file
 	os.WriteFile(filepath.Join(base, "unk.user"), []byte("argon2id:1700000000:77:QUJDREVGR0hJSktMTU5PUA==:QUJDREVGR0hJSktMTU5PUFFSU1RVVldYWVo=\n"), 0600) //nolint:errcheck
-	os.Mkdir(filepath.Join(base, "dir.user"), 0700)                                                                                                            //nolint:errcheck
-	os.WriteFile(filepath.Join(base, "junk.user"), []byte("\x00\x01garbage"), 0600)                                                                         //nolint:errcheck
-	os.WriteFile(filepath.Join(base, "empty.user"), nil, 0600)                                                                                               //nolint:errcheck
+	os.Mkdir(filepath.Join(base, "dir.user"), 0700)                                                                                                       //nolint:errcheck
+	os.WriteFile(filepath.Join(base, "junk.user"), []byte("\x00\x01garbage"), 0600)                                                                       //nolint:errcheck
+	os.WriteFile(filepath.Join(base, "empty.user"), nil, 0600)                                                                                            //nolint:errcheck
 	for _, u := range []string{"unk", "dir", "junk", "empty"} {
 		for _, pw := range []string{"x", "QUJD"} {
 			got := map[string]string{"sasl": agent.saslAuth(u, pw), "basic": agent.basicAuth(u, pw), "api": agent.apiAuth(u, pw, false), "ldap": agent.ldapBind(u, pw), "cli": agent.cliAuth(u, pw)}
